@@ -10,10 +10,10 @@ Require Import ExcerptModel Model Spec Refine Within SpanSpec Ordered Entry Fina
 Theorem C10_span_exact :
   forall (g funs : list (list nat * expr)) (ignored : option nat)
          (t : list nat) (rx : nat -> nat -> option nat),
-    (forall r ps b, nth_error g r = Some (ps, b) -> wf g funs ignored t rx ps b) ->
-    (forall fid ps b, nth_error funs fid = Some (ps, b) -> wf g funs ignored t rx ps b) ->
+    (forall r ps b, nth_error g r = Some (ps, b) -> wf ps b) ->
+    (forall fid ps b, nth_error funs fid = Some (ps, b) -> wf ps b) ->
     (forall r, ignored = Some r -> exists es, nth_error g r = Some ([], Skip es)) ->
-    forall n e sc E s v p', wf g funs ignored t rx sc e -> scope_of sc E -> sub E (locals s) ->
+    forall n e sc E s v p', wf sc e -> scope_of sc E -> sub E (locals s) ->
       peg g funs ignored t rx n E e (pos s) = Match v p' ->
       exists s', exec true g funs ignored t rx n e s = Done s' /\ status s' = true /\ result s' = v /\ pos s' = p'.
 Proof.
